@@ -118,10 +118,18 @@ def r2_fixed_ranges(ctx):
         ctx.check(R, o.fields['symmetric'] is False, f.node, f, f'{op}/{bits} symmetric', 'a non-zero zero point must not be flagged symmetric')
   # the fixed params replace the producer params and the qsv
   h = ctx.repo.func(f'{MMU}:materialize_op_with_output_activation_constraint')
-  src = defuse.norm(h.node)
-  ctx.check(R, 'parameters=fixed_quant_params' in src.replace(' ', '').replace('parameters=fixed_quant_params', 'parameters=fixed_quant_params') and 'output_activation_constraints[activation_num_bits]' in src,
-            h.node, h, 'fixed params applied to the output', 'the output producer must receive the fixed parameters of the configured activation width')
-  ctx.check(R, 'activation_tensor_config.num_bits' in src, h.node, h, 'width lookup', 'the table must be looked up with the activation width of the op config')
+  inl0 = defuse.Inliner(ctx.repo, max_depth=0)
+  tbl = h.pos_params[3]
+  ctor = [c for c in common.calls_in(h.node) if common.call_name(c).endswith('OpToTensorParams')]
+  okp = False
+  for c in ctor:
+    kw = {k.arg: defuse.norm(inl0.inline(h, k.value)) for k in c.keywords}
+    if kw.get('parameters', '').startswith(f'{tbl}[') and 'activation_tensor_config.num_bits' in kw.get('parameters', ''):
+      okp = True
+  ctx.check(R, okp, h.node, h, 'fixed params applied to the output',
+            'the output producer must receive the table entry of the activation width of the op config')
+  st = [n for n in common.walk_no_nested(h.node) if isinstance(n, ast.Assign) and isinstance(n.targets[0], ast.Attribute) and n.targets[0].attr == 'producer']
+  ctx.check(R, len(st) == 1, h.node, h, 'producer replaced', 'the fixed parameters must replace the producer entry of the output tensor')
 
 
 def r3_channel_dim(ctx):
@@ -171,17 +179,34 @@ def r3_channel_dim(ctx):
   ctx.check(R, all(defuse.norm(n.test) == f'{rd.pos_params[0]} is None' for n in early) and early, rd.node, rd, 'per-tensor only when the dimension is None',
             'quantized dimension 0 is valid: "no dimension" must be tested with `is None`, not by truthiness')
   it = ctx.repo.func(f'{MMU}:init_tensor_min_max')
-  src = defuse.norm(it.node)
-  ctx.check(R, '_get_reduce_dims(quantized_dim, tensor.shape)' in src and 'np.min(tensor_data, axis=reduce_dims, keepdims=True)' in src and 'np.max(tensor_data, axis=reduce_dims, keepdims=True)' in src,
-            it.node, it, 'constant statistics', 'constant min/max must be reduced over the non-quantized axes with keepdims')
+  inl0 = defuse.Inliner(ctx.repo, max_depth=0)
+  last = [n for n in it.node.body if isinstance(n, ast.If)]
+  rets = sorted([n for n in common.walk_no_nested(it.node) if isinstance(n, ast.Return) and isinstance(n.value, ast.Dict) and n.value.keys], key=lambda n: n.lineno)
+  final = rets[-1].value if rets else None
+  okc = final is not None
+  if okc:
+    for k, v in zip(final.keys, final.values):
+      want_fn = {'min': 'np.min', 'max': 'np.max'}.get(k.value)
+      kw = {x.arg: x.value for x in v.keywords} if isinstance(v, ast.Call) else {}
+      a0 = defuse.norm(inl0.inline(it, v.args[0])) if isinstance(v, ast.Call) and v.args else ''
+      ax = defuse.norm(inl0.inline(it, kw['axis'])) if 'axis' in kw else ''
+      okc = okc and isinstance(v, ast.Call) and common.call_name(v) == want_fn and a0.startswith('tfl_flatbuffer_utils.get_tensor_data(' + it.pos_params[0]) \
+          and ax.startswith('_get_reduce_dims(') and ax.endswith(f', {it.pos_params[0]}.shape)') and defuse.norm(kw.get('keepdims', ast.Constant(value=None))) == 'True'
+  ctx.check(R, okc, it.node, it, 'constant statistics', 'constant min/max must be np.min/np.max of the tensor\'s own data over _get_reduce_dims(<quantized dim>, tensor.shape) with keepdims')
   gq = ctx.repo.func(f'{MMU}:_get_tensor_quant_params')
   ctor = [c for c in common.calls_in(gq.node) if common.call_name(c).endswith('UniformQuantParams')]
+  cfgp = gq.pos_params[2]
+  mm = gq.pos_params[1]
   for c in ctor:
-    kw = {k.arg: ast.unparse(k.value) for k in c.keywords}
-    ctx.check(R, kw.get('quantized_dimension') == 'quantized_dim' and kw.get('scale') == 'scale' and kw.get('zero_point') == 'zp' and kw.get('num_bits', '').endswith('.num_bits') and kw.get('symmetric', '').endswith('.symmetric'),
-              c, gq, c, 'parameters must carry the computed scale / zero point / dimension and the configured width / symmetry')
+    kw = {k.arg: defuse.norm(inl0.inline(gq, k.value)) for k in c.keywords}
+    okk = kw.get('scale', '').startswith('uniform_quantize_tensor.tensor_zp_scale_from_min_max(') and kw.get('scale', '').endswith('[1]') \
+        and kw.get('zero_point', '').startswith('uniform_quantize_tensor.tensor_zp_scale_from_min_max(') and kw.get('zero_point', '').endswith('[0]') \
+        and kw.get('num_bits') == f'{cfgp}.num_bits' and kw.get('symmetric') == f'{cfgp}.symmetric'
+    qdn = [k.value for k in c.keywords if k.arg == 'quantized_dimension']
+    okk = okk and len(qdn) == 1 and isinstance(qdn[0], ast.Name)
+    ctx.check(R, okk, c, gq, c, 'parameters must carry the computed (zero point, scale), the selected dimension and the configured width / symmetry')
   zs = [c for c in common.calls_in(gq.node) if common.call_name(c).endswith('tensor_zp_scale_from_min_max')]
-  ok = len(zs) == 1 and [ast.unparse(a) for a in zs[0].args] == ['tensor_min_max["min"]'.replace('"', "'"), "tensor_min_max['max']", 'tensor_quant_config.num_bits', 'tensor_quant_config.symmetric']
+  ok = len(zs) == 1 and [ast.unparse(a) for a in zs[0].args] == [f"{mm}['min']", f"{mm}['max']", f'{cfgp}.num_bits', f'{cfgp}.symmetric']
   ctx.check(R, ok, gq.node, gq, zs[0] if zs else 'tensor_zp_scale_from_min_max', 'zp/scale must be computed from (min, max, configured bits, configured symmetry) in that order')
 
 
@@ -195,7 +220,8 @@ def r4_bias(ctx):
     a = [defuse.norm(x) for x in calls[0].args]
     ctx.check(R, a[1] == 'op_tensor_params[op_input_index].consumers[0].parameters' and a[2] == 'op_tensor_params[op_weight_index].consumers[0].parameters', calls[0], b, calls[0],
               'bias scale must be derived from the parameters of the op\'s input operand and weight operand, in that order')
-    ctx.check(R, a[0] == 'bias_content', calls[0], b, calls[0], 'the bias content must be quantized')
+    a0 = defuse.norm(defuse.Inliner(ctx.repo, max_depth=0).inline(b, calls[0].args[0]))
+    ctx.check(R, a0.startswith('tfl_flatbuffer_utils.get_tensor_data(') and 'parse_fc_bmm_conv_tensors' in a0, calls[0], b, calls[0], 'the content of the op\'s bias tensor must be quantized')
   st = [n for n in common.walk_no_nested(b.node) if isinstance(n, ast.Assign) and isinstance(n.targets[0], ast.Subscript) and ast.unparse(n.targets[0].value) == 'op_tensor_params']
   ctx.check(R, len(st) == 1 and ast.unparse(st[0].targets[0].slice) == 'op_bias_index', b.node, b, 'bias entry', 'the bias entry must replace the entry at the bias operand index')
   parse = [c for c in common.calls_in(b.node) if common.call_name(c).endswith('parse_fc_bmm_conv_tensors')]
